@@ -40,7 +40,7 @@ class Fp2:
         n = self.norm(a)
         if n == 0:
             raise ZeroDivisionError("Fp2 inverse of 0")
-        t = pow(n, self.p - 2, self.p)
+        t = pow(n, -1, self.p)
         return ((a[0] * t) % self.p, (-a[1] * t) % self.p)
 
     def div(self, a, b):
